@@ -72,6 +72,12 @@ def main() -> int:
     findings += f3
     harness += h3
     ev.add(escaper_leaves_constructs_alone_E_RE=re_info)
+    from checks import c04_re
+
+    f4, h4, fence_info = c04_re.lemma("C04")
+    findings += f4
+    harness += h4
+    ev.add(fence_scan_covers_closing_candidates_E_RE=fence_info)
     kern = {}
     try:
         from checks import kernels
